@@ -88,6 +88,13 @@ def run(c):
     plans.append(dict(per=(1, 1, 1), side=(1.0, 1.0, 1.0), anchor=(0., 0., 0.), fseed=0, kind="hotspot", gamma=5. / 3., steps=4,
                       layouts=[(2, 2, 2), (1, 1, 4), (3, 1, 1)] if tier == "quick" else must + [(2, 1, 3), (4, 4, 4), (1, 6, 2)]))
 
+    # turbulence forcing on: the forcing added to a cell must not depend on the subgrid the cell lives in (layouts whose
+    # subgrids have different cell counts along y and z)
+    plans.append(dict(per=(1, 1, 1), side=(1.0, 1.0, 1.0), anchor=(0., 0., 0.), fseed=rng.randrange(1, 10 ** 6), kind="calm", gamma=5. / 3.,
+                      steps=3, layouts=[(1, 4, 2), (2, 2, 2), (1, 1, 4)] if tier == "quick" else [(1, 4, 2), (2, 2, 2), (1, 1, 4), (3, 2, 4), (1, 6, 1)],
+                      extra="  turbulent forcing: true\n\nTurbulenceForcing:\n  minimum wave number: 1.\n  maximum wave number: 3.\n"
+                            "  forcing power: 1.e3 m^2 s^-3\n  time step: 1.e-5 s\n"))
+
     def field(plan):
         if plan["kind"] != "hotspot":
             return hydrolib.random_blocks(random.Random(plan["fseed"]), plan["side"], plan["anchor"], plan["kind"])
@@ -102,7 +109,7 @@ def run(c):
         res = hydrolib.run_rhd(exe, d, n, plan["per"], threads=nt, steps=plan.get("steps", 2), ncell=NCELL, seed=seed, jitter=nt > 1,
                                timeout=180, state_file=True, side=plan["side"], anchor=plan["anchor"],
                                gamma=plan["gamma"], blocks=field(plan),
-                               total_time=1.0e3, wall="reflective")
+                               total_time=1.0e3, wall="reflective", extra=plan.get("extra", ""))
         st = None
         dig = None
         if res["rc"] == 0:
